@@ -30,6 +30,17 @@ def text(tree, um):
         "struct Widgets : decltype(au::%s{} * au::mag<7>()) {};" % ty,
         "constexpr auto widgets = au::QuantityMaker<Widgets>{};",
         "constexpr int widget_factor() { return 7; }",
+    ]
+    if um.get("non_ascii"):
+        # downstream projects are not all ASCII: a name in a comment, a symbol in a string literal
+        # (the file is UTF-8, as source files nowadays are)
+        lines += [
+            "// (c) Müller & Søn A/S — Ångström helpers, ±0.5 µm",
+            'constexpr const char *maker() { return "M\u00fcller \u00b5-Technik"; }',
+        ]
+    else:
+        lines += ['constexpr const char *maker() { return "Acme"; }']
+    lines += [
         "}  // namespace acme",
         "",
     ]
@@ -40,5 +51,6 @@ def probe_lines(tree, um):
     unit = um.get("unit") or (tree.units[0] if tree.units else "seconds")
     ty = (tree.unit_types.get(unit) or ["Seconds"])[0]
     return [
+        '    std::printf("acme-maker [%s]\\n", acme::maker());',
         '    std::printf("acme %%d %%d %%d\\n", acme::widgets(3).in(au::make_quantity<au::%s>(1).unit), acme::widget_factor(), int(acme::widgets(2) == au::make_quantity<au::%s>(14)));' % (ty, ty),
     ]
